@@ -18,7 +18,7 @@ CHECKS = {
         ref="DESIGN.md 2/C02",
     ),
     "C03": dict(
-        text="Runtime monitoring of the state constructors: (a) subsets of the optional State::new inputs (all 2^8 x corruption classes at thorough) with valid / NaN / inf / negative / wrong-length values against a harness re-implementation of the documented determination rule: Ok states echo every supplied input to 1e-13, invalid / over- / under-determined sets are rejected, no panic; (b) deterministic success grid: every record of the Gross-Sadowski collections x T in [0.45,1.65] T_c x p in [1e-4,10] p_c x 3 phase hints must yield a state whose pressure matches (1e-7 rel + solver abs tol); root selection against a 400-point density scan (lowest Gibbs energy without hint, hinted branch when both exist); (c) 3e3 / 1.5e5 random (T,p,initial density) over the model zoo: pressure reproduced whenever Ok, with the hook trace marking executions whose density loop was exhausted; (d) (p,h),(p,s),(T,h),(T,s),(V,u) targets generated from reachable states with perturbed initial temperature/density: target reproduced to solver tolerance and p/T/V echoed whenever Ok. The 2^8 input subsets are enumerated exhaustively in both tiers (6 / 16 random value sets and corruption classes each).",
+        text="Runtime monitoring of the state constructors: (a) subsets of the optional State::new inputs (all 2^8 x corruption classes at thorough) with valid / NaN / inf / negative / wrong-length values against a harness re-implementation of the documented determination rule: Ok states echo every supplied input to 1e-13, invalid / over- / under-determined sets are rejected, no panic; (b) deterministic success grid: every record of the Gross-Sadowski collections x T in [0.45,1.65] T_c x p in [1e-4,10] p_c x 3 phase hints must yield a state whose pressure matches (1e-7 rel + solver abs tol); root selection against a 400-point density scan (lowest Gibbs energy without hint, hinted branch when both exist); cross-route clause: State::new(T,V,p,hint) has the density of new_npt(T,p,N,hint) to 1e-6 and echoes V and T exactly (one third of the grid); (c) 3e3 / 1.5e5 random (T,p,initial density) over the model zoo: pressure reproduced whenever Ok, with the hook trace marking executions whose density loop was exhausted; (d) (p,h),(p,s),(T,h),(T,s),(V,u) targets generated from reachable states with perturbed initial temperature/density: target reproduced to solver tolerance and p/T/V echoed whenever Ok. The 2^8 input subsets are enumerated exhaustively in both tiers (6 / 16 random value sets and corruption classes each).",
         note="The re-implemented determination rule (echo_expect) is the reference for Ok/Err classification. Solver tolerances (density iteration abs 1e-12, Newton wrappers atol/rtol on the iterate) enter the oracles explicitly.",
         technique="reference-model monitor (documented determination rule) + relational oracle on every returned state + trace specification over density-iteration exit events",
         ref="DESIGN.md 2/C03",
